@@ -742,6 +742,36 @@ theorem nonvacuous_heap_run_refines :
     (ret := none) (h1 := exH8) ⟨reach exH7 3 5 (by decide), novalue exH7 _ rfl⟩ (by decide +kernel)
     (fun v hv => by cases hv) (by decide +kernel) rfl (by decide +kernel) (.nil _)
 
+/-- HANDLES ARE BORN LIVE (how the `LiveAt` hypotheses of `HandleRun` arise): on a handle `x` that is live
+    at `p`, the cell `x.AddContainer(name)` / `x.AddList(name)` returns is live at `utils.ToPath(p, name)` in
+    the heap after the call (member names without '.'), and what `x.Child(name)` / `x.Lookup(q)` return is
+    live at `ToPath(p, q)` — so a handle is live from the call that produced it until a call overwrites
+    or removes a position on its path (`heap_overwrite_detaches`; `heap_handle_stays`: writes at diverging
+    paths do not move it). -/
+theorem heap_handle_born_live (h h' : Heap) (root x b : Addr) (p name : String) (hi : Inv h) (hrl : root < h.size)
+    (hlive : LiveAt h root x p) (hdot : '.' ∉ name.toList) (hq : toPath p name ≠ "") :
+    (addContainerH h x name = some (h', b) → b = h.size ∧ LiveAt h' root b (toPath p name)) ∧
+    (addListH h x name = some (h', b) → b = h.size ∧ LiveAt h' root b (toPath p name)) ∧
+    (∀ y q kvs, h.get? x = some (.cont kvs) → toPath p q ≠ "" → lookupSegsH h x (splitPath q) = some y →
+      LiveAt h root y (toPath p q)) := by
+  refine ⟨fun he => ?_, fun he => ?_, fun y q kvs hg hq' hl => born_live_read hlive hg q hq' hl⟩
+  · unfold addContainerH at he
+    simp only at he
+    split at he
+    · rename_i h2 he'
+      simp only [Option.some.injEq, Prod.mk.injEq] at he
+      obtain ⟨rfl, rfl⟩ := he
+      exact ⟨rfl, born_live_new rfl (fun kvs hk => by cases hk; exact .nil) hi hrl hlive hdot hq he'⟩
+    · cases he
+  · unfold addListH at he
+    simp only at he
+    split at he
+    · rename_i h2 he'
+      simp only [Option.some.injEq, Prod.mk.injEq] at he
+      obtain ⟨rfl, rfl⟩ := he
+      exact ⟨rfl, born_live_new rfl (fun kvs hk => by cases hk) hi hrl hlive hdot hq he'⟩
+    · cases he
+
 /-- … AND THE DOCUMENTED PANIC: when such a history is followed by `l.MustSet(i, v)` on a list handle that
     is live at `p`, the heap-level history panics EXACTLY WHEN the corresponding value-level history
     (`… ++ [MustSet at p]`) does — out of range both panic, in range neither does. -/
